@@ -13,7 +13,7 @@ package searcher
 // pairwise quantifiers.
 //@ ghostfield search.DocumentMatch.cowner search.Searcher
 //@ uf childIdx(sr search.Searcher) int
-//@ spec conjShape(s *ConjunctionSearcher) bool = len(s.currs) == len(s.searchers) && 0 <= s.maxIDIdx && forall(k, 0, len(s.searchers), s.searchers[k] != nil && s.searchers[k] != s && childIdx(s.searchers[k]) == k)
+//@ spec conjShape(s *ConjunctionSearcher) bool = len(s.currs) == len(s.searchers) && 0 <= s.maxIDIdx && (len(s.searchers) == 0 || s.maxIDIdx < len(s.searchers)) && forall(k, 0, len(s.searchers), s.searchers[k] != nil && s.searchers[k] != s && childIdx(s.searchers[k]) == k)
 //@ spec slotOK(s *ConjunctionSearcher, k int) bool = implies(s.currs[k] != nil, s.searchers[k].started && !s.searchers[k].done && s.searchers[k].last == dmKey(s.currs[k]) && s.currs[k].cowner == s.searchers[k] && mset(s.searchers[k], dmKey(s.currs[k]))) && \
 //@     implies(s.currs[k] == nil, s.searchers[k].done)
 // before the first call the children have not been touched
